@@ -57,6 +57,8 @@ mod tag_table;
 mod text_parser;
 mod unicode;
 mod unicode_norm;
+#[cfg(rustybuzz_verif)]
+pub mod verif;
 
 use ttf_parser::Tag as hb_tag_t;
 
